@@ -71,6 +71,34 @@ def _replay_a(ctx, exe):
     return outs
 
 
+def _headers_b(ctx, exe):
+    """line-level mutations of headers written by the library, one driver process per reader"""
+    readers = ["img_direct", "img_generic", "pd_direct", "pd_generic"]
+    outs = [os.path.join(ctx.work, "b.%s.ndjson" % r) for r in readers]
+    env = {"VERIF_SEED": str(ctx.seed), "ASAN_OPTIONS": ASAN % (256, 0)}
+
+    def one(i):
+        w = os.path.join(ctx.work, "hdr-" + readers[i])
+        os.makedirs(w, exist_ok=True)
+        lib.run_driver(exe, ["hdr", w, outs[i], 0 if ctx.quick else 1, readers[i]], env=env, timeout=1500)
+    with cf.ThreadPoolExecutor(len(readers)) as ex:
+        list(ex.map(one, range(len(readers))))
+    chunks = []
+    for o in outs:
+        if sum(1 for _ in open(o)) < 100:
+            raise lib.ModelFailure("header mutation run recorded too little: " + o)
+        chunks += [c[0] for c in lib.split_trace(o, os.path.join(ctx.work, "chunks"), maxlines=700, boundary="Hdr")]
+    return chunks
+
+
+def _roundtrip_c(ctx, exe):
+    out = os.path.join(ctx.work, "c.ndjson")
+    lib.run_driver(exe, ["roundtrip", out], env={"ASAN_OPTIONS": ASAN % (256, 0)}, timeout=600)
+    if sum(1 for _ in open(out)) < 40:
+        raise lib.ModelFailure("round trip recorded too few registered names")
+    return [out]
+
+
 def _validate(ctx, chunks, jobs):
     res = lib.validate_parallel("Trace_KeyParser", chunks, jobs=jobs, timeout=1500, heap="3g")
     known_ids = {k["id"] for k in ctx.known}
@@ -84,6 +112,16 @@ def _validate(ctx, chunks, jobs):
             if rec["e"] == "Run":
                 ctx.nontrivial("a:" + ",".join(str(i) for i in rec["gen"]["ids"]) + ("n" if rec["gen"]["nl"] else ""))
                 ctx.extra["replayed_sequences"] = ctx.extra.get("replayed_sequences", 0) + 1
+            elif rec["e"] == "Mut":
+                ctx.nontrivial("b:%d:%s:%s:%d:%s:%s" % (rec["hid"], rec["reader"], rec["mut"], rec["at"], "|".join(rec["fresh"]), rec["nl"]))
+                ctx.extra["header_mutations"] = ctx.extra.get("header_mutations", 0) + 1
+                k = "header_outcomes_" + rec["obs"]["verdict"]
+                ctx.extra[k] = ctx.extra.get(k, 0) + 1
+            elif rec["e"] == "RT":
+                ctx.nontrivial("c:" + rec["registry"] + ":" + rec["name"])
+                ctx.extra["registered_names"] = ctx.extra.get("registered_names", 0) + 1
+                if rec["constructed"]:
+                    ctx.extra["round_trips"] = ctx.extra.get("round_trips", 0) + 1
         if at is not None or not ok:
             ctx.violation("trace not consumed (line %s)" % at, p)
             continue
@@ -109,11 +147,18 @@ def run(ctx):
     _model_check(ctx)
     exe = lib.build_driver("c17_keyparser", santree=True)
     chunks = _replay_a(ctx, exe)
-    _validate(ctx, chunks, 4 if q else 8)
     for c in chunks[:1]:
         recs = lib.read_ndjson(c)
-        for rec in recs[5:400:97]:
+        for rec in recs[5:400:131]:
             ctx.sample({"fed": rec["fed"], "obs": rec["obs"]})
+    bchunks = _headers_b(ctx, exe)
+    for rec in lib.read_ndjson(bchunks[0])[3:200:67]:
+        if rec["e"] == "Mut":
+            ctx.sample({k: rec[k] for k in ("reader", "mut", "at", "fresh", "obs")})
+    cchunks = _roundtrip_c(ctx, exe)
+    _validate(ctx, chunks + bchunks + cchunks, 4 if q else 8)
+    if ctx.extra.get("round_trips", 0) < 20 or ctx.extra.get("header_outcomes_accepted", 0) < 100:
+        raise lib.ModelFailure("too few round trips / accepted headers recorded: the recording is not exercising the code")
     ctx.exhaustive = False
     ctx.assumptions = ["memory safety is observed (ASan/UBSan) on the enumerated inputs only; coverage-guided byte-level fuzzing is a different technique and is not done"]
     return ctx.finish(rule="one evaluation = one recorded outcome of the real code (a line sequence fed to a real KeyParser, a mutated header fed to a real "
